@@ -160,6 +160,59 @@ def run(ctx):
     if nagg == 0:
         r2.violate("C05|R2|no-header-built", "the request parser builds no Header aggregate (anchor missing)")
 
+    # ---- R2c decoded request data does not reach a response header unstripped
+    r2c = chk.rule("R2c-decoded-data-in-headers-is-stripped", "no Header built in connection-reachable code takes its name or value from the output of a decoder of request data (query / form decoding, percent_decode: `%0D%0A` becomes CR LF there) unless it passes through the CR/LF stripper or a character filter; expected count of such headers today: zero")
+    DECODERS = ("request::Request::get_uri_query", "request::Request::get_query", "body::form_urlencoded::FormUrlEncoded::parse", "url::URL::parse_query",
+                "url::URL::percent_decode", "url_search_params::decode_uri_component", "url_search_params::parse_url_search_params", "body::multipart_form_data::FormMultipartData::parse")
+    FILTERS = re.compile(r"ext::string_ext::StringExt::(filter_ascii_control_characters|truncate_new_line_carriage_return)|.*::retain$|.*Iterator::filter$|.*::is_ascii_alphanumeric$|.*::is_alphanumeric$|.*::escape_default$")
+    from ..taint import local_deps as _ld, Taint as _Taint
+
+    class DecodedTaint(_Taint):
+        """seeds: what a decoder of request data returns (and the decoded `query` map of a parsed URL)"""
+        def seeds(self, fn):
+            ld_ = _ld(fn)
+            out = {l for l, fields in ld_.field_reads.items() if "query" in fields}
+            for _, t_ in fn.calls():
+                if callee_name(t_) in DECODERS and t_["dest"] is not None:
+                    out.add(t_["dest"]["l"])
+            return out
+    dt = DecodedTaint(F, local, [], G=G)
+    nh = 0
+    from ..inline import is_private_helper as _iph
+    for n in local:
+        fn = F.fns[n]
+        if fn.crate != "rws" or fn.kind == "Closure" or _iph(F, n):
+            continue        # private helpers and local closures are judged inside the function they are inlined into (A11)
+        fn = ctx.inl(fn)
+        aggs = header_aggregates(fn)
+        if not aggs or any(callee_name(t_) == "response::Response::generate_body" for _, t_ in fn.calls()):
+            continue        # the serialisers build the framing headers from the content ranges of the Response they are given (R5)
+        tl = dt.tainted_locals(fn)
+        if not tl:
+            continue
+        ld = _ld(fn)
+        filt_dsts = {t["dest"]["l"] for _, t in fn.calls() if t["dest"] is not None and ((callee_name(t) or "") == stripper or FILTERS.fullmatch(callee_name(t) or ""))}
+        k = 0
+        for bid, st, nv, vv in aggs:
+            if const_str(nv) in ("Content-Type", "Content-Length", "Content-Range"):
+                continue        # framing headers: their source is decided by R5 (the emitted content range)
+            d_ = dict(zip(st["rv"]["fields"], st["rv"]["ops"]))
+            for what in ("name", "value"):
+                o = d_.get(what)
+                if o is None or o.get("k") not in ("copy", "move") or o["l"] not in tl:
+                    continue
+                # the decimal rendering of a number cannot carry a line break, whatever the number was computed from
+                vv_ = du_of(fn).val_operand(o)
+                if vv_[0] == "call" and vv_[1] and vv_[1].endswith("::to_string") and vv_[2] and vv_[2][0][0] in ("ref", "place") \
+                        and (fn.local_ty(vv_[2][0][1][0]) or "").lstrip("&") in ("u8", "u16", "u32", "u64", "u128", "usize", "i8", "i16", "i32", "i64", "i128", "isize", "f32", "f64", "bool"):
+                    continue
+                nh += 1
+                k += 1
+                ok = bool(ld.closure(o["l"]) & filt_dsts)
+                r2c.instance({"fn": n, "header": const_str(nv) or "?", "field": what, "line": st["span"]["line"], "passes_a_filter": ok}, ok)
+                if not ok:
+                    r2c.violate("C05|R2c|%s|%s|%d" % (n, const_str(nv) or "?", k), "%s builds the header %s whose %s is computed from decoded request data (query / form decoding, percent_decode) without a CR/LF filter: `%%0D%%0A` in the request becomes a line break in the response head" % (n, const_str(nv) or "?", what), st["span"]["file"], st["span"]["line"], n)
+
     # ---- R3 status line pairs + IANA
     r3 = chk.rule("R3-status-line-pairs", "every assignment of Response.status_code is followed by the reason_phrase of the same status entry; Response aggregates take both from one entry", floor=10)
     r3b = chk.rule("R3b-status-table-registered", "every entry of the status table has a registered code, the registered phrase for it, and a field name carrying the same code", floor=55)
